@@ -112,21 +112,26 @@ def is_dyadic(lat):
     return x == int(x) and abs(x) < 2 ** 53
 
 
-def exp_timetag(lat):
-    """Non-real-time mode, outside routines: absolute from zero.  None or a
-    negative latency means "immediately": tag 1 (OSC) or 0 (time zero of the
-    score) - don't-care here, C07 decides.  Latencies that are not a multiple
-    of 2**-32 s: the statement does not fix the rounding, +-2 units (the C07
-    tolerance) are accepted."""
+def exp_timetag(lat, base=0.0):
+    """Non-real-time mode.  Outside routines (base 0): absolute from zero.
+    Inside a routine running at logical time `base` seconds: base + latency.
+    None or a negative latency means "immediately": tag 1 (OSC) or the
+    logical time of the send itself (0 at time zero of the score) -
+    don't-care here, C07 decides.  Times that are not a multiple of 2**-32 s:
+    the statement does not fix the rounding, +-2 units (the C07 tolerance)
+    are accepted."""
     if lat is None or lat < 0:
-        return Alt(0, 1)
-    if not timetag_representable(lat):
-        return ANY
-    t = int(lat * TWO32)
-    if is_dyadic(lat):
-        return t                   # exact
-    return Alt(*[x for x in (t, t - 1, t + 1, t - 2, t + 2)
-                 if 0 <= x < 2 ** 64])
+        when, exact = base, is_dyadic(base)
+    else:
+        if not timetag_representable(lat + base):
+            return ANY
+        when, exact = lat + base, is_dyadic(lat) and is_dyadic(base)
+    t = int(when * TWO32)
+    alts = [t] if exact else [x for x in (t, t - 1, t + 1, t - 2, t + 2)
+                              if 0 <= x < 2 ** 64]
+    if lat is None or lat < 0:
+        alts = [x for x in alts if x != 1] + [1]
+    return alts[0] if len(alts) == 1 else Alt(*alts)
 
 
 def utf8_encodable(s):
@@ -137,7 +142,7 @@ def utf8_encodable(s):
         return False
 
 
-def exp_message(msg, vd):
+def exp_message(msg, vd, base=0.0):
     """Expected decoded structure of the message-shaped list `msg`."""
     addr = msg[0]
     if addr == '':
@@ -189,9 +194,9 @@ def exp_message(msg, vd):
             if not a:
                 toks.append(('i', 0))
             elif isinstance(a[0], str):
-                toks.append(('b', Pkt(exp_message(a, vd))))
+                toks.append(('b', Pkt(exp_message(a, vd, base))))
             else:
-                toks.append(('b', Pkt(exp_bundle(a, vd))))
+                toks.append(('b', Pkt(exp_bundle(a, vd, base))))
         else:
             raise ValueError(f'value outside the alphabet: {a!r}')
     args = []
@@ -217,21 +222,23 @@ def exp_message(msg, vd):
             'args': args}
 
 
-def exp_bundle(bndl, vd):
+def exp_bundle(bndl, vd, base=0.0):
     """Expected decoded structure of the bundle-shaped list `bndl`."""
     lat = bndl[0]
-    if not timetag_representable(lat):
+    if not timetag_representable(lat) or (
+            lat is not None and lat >= 0 and
+            not timetag_representable(lat + base)):
         vd.must_refuse('timetag-range')
     elements = []
     for e in bndl[1:]:
         if isinstance(e[0], str):
-            elements.append(exp_message(e, vd))
+            elements.append(exp_message(e, vd, base))
         else:
             sub = e[0]
             if lat is not None and (sub is None or sub < lat):
                 vd.may_refuse('nested-precedes-parent')   # C07 decides
-            elements.append(exp_bundle(e, vd))
-    return {'type': 'bundle', 'timetag': exp_timetag(lat),
+            elements.append(exp_bundle(e, vd, base))
+    return {'type': 'bundle', 'timetag': exp_timetag(lat, base),
             'elements': elements}
 
 
@@ -479,6 +486,19 @@ def selftest():
     for tt, ok in ((429496729, True), (429496731, True), (429496732, False)):
         w = osc10.encode_bundle(tt, [enc('/x')])
         assert (match(e, osc10.decode(w)) is None) == ok
+    # Inside a routine at logical time 2.5 s: every (nested) timetag is
+    # logical time + that bundle's latency.
+    v = Verdict()
+    e = exp_bundle([0.5, ['/x'], [0.75, ['/y', [None, ['/z']]]]], v, 2.5)
+    def mk(a, b_, c):
+        return osc10.encode_bundle(a, [enc('/x'), osc10.encode_bundle(
+            b_, [enc('/y', [osc10.encode_bundle(c, [enc('/z')])])])])
+    u = 2 ** 32
+    assert match(e, osc10.decode(mk(3 * u, 3 * u + u // 4, 5 * u // 2))) \
+        is None
+    assert match(e, osc10.decode(mk(3 * u, 3 * u + u // 4, 1))) is None
+    assert match(e, osc10.decode(mk(3 * u, 5 * u + 3 * u // 4, 1)))
+    assert match(e, osc10.decode(mk(3 * u, 3 * u + u // 4, 0)))
     # Plain builder: typed arguments, arrays, booleans either way.
     v = Verdict()
     e = exp_typed_message('/t', [[0.1, 'd'], [16909060, 'r'], [True, None],
